@@ -171,7 +171,29 @@ func (x *XRefParser) ParseXRef(offset int64) (*XRefTable, error) {
 	if isStream {
 		return x.parseXRefStream()
 	}
-	return x.parseTraditionalXRef()
+	table, err := x.parseTraditionalXRef()
+	if err != nil {
+		return nil, err
+	}
+
+	// Hybrid-reference file: the trailer names a cross-reference stream (/XRefStm)
+	// that is consulted for objects this section does not list, before /Prev
+	if stmOffset, ok := table.Trailer.Get("XRefStm").(Int); ok {
+		if _, err := x.reader.Seek(int64(stmOffset), io.SeekStart); err != nil {
+			return nil, fmt.Errorf("failed to seek to /XRefStm: %w", err)
+		}
+		x.startPos = int64(stmOffset)
+		stmTable, err := x.parseXRefStream()
+		if err != nil {
+			return nil, fmt.Errorf("failed to parse /XRefStm: %w", err)
+		}
+		for objNum, entry := range stmTable.Entries {
+			if _, listed := table.Get(objNum); !listed {
+				table.Set(objNum, entry)
+			}
+		}
+	}
+	return table, nil
 }
 
 // scanPDFLines is a bufio.SplitFunc for the lines of a PDF file: a line ends
